@@ -106,3 +106,52 @@ Example C05_example :
   store (run ex_lockres ex_progs ex_st0 [0; 1; 1; 0; 1; 0; 0; 1]) 3 = 2 /\
   store (run ex_lockres ex_progs ex_st0 (solo ex_progs 0)) 3 = 1.
 Proof. exact (conj ex_respects ex_interleaved). Qed.
+
+(* ------------------------------------------------------------------ *)
+(* FROM THE TEXT.  (A) API-call granularity: one Compile, any number of threads, ANY global order of
+   their Select / Evaluate / Dirty calls on the shared compiled expression: every call observes
+   what it observes on a fresh compilation, and a thread's view is the view of its solo run.
+   (B) memory granularity: for any discipline-respecting modelling of the evaluation threads of the
+   compiled query (the hypothesis [eval_model q], as in the theorems above) there is no race, every
+   thread observes its solo result, and the shared locations never change. *)
+From XP Require Import Base F64 Doc Ast Scan Parse Build Eval Api.
+From XP.Spec Require Import Paths.
+From XP.Proofs Require Import HashInj Purity RoundTripPaths EndToEndPaths EndToEndConc.
+
+Theorem C05_text_one_compile_many_threads : forall re_ok rm rn rr hcode text ns q,
+  compile re_ok text ns = Ok q ->
+  forall (h : schedule) t,
+    run_obs rm rn rr hcode (mkExpr q []) h = map (fun x => (fst x, fresh_obs rm rn rr hcode q (snd x))) h /\
+    thread_view t (run_obs rm rn rr hcode (mkExpr q []) h) =
+    map snd (run_obs rm rn rr hcode (mkExpr q []) (map (fun o => (t, o)) (thread_view t h))).
+Proof. exact C05_text_threads_observe_solo. Qed.
+Print Assumptions C05_text_one_compile_many_threads.
+
+Theorem C05_text_path_under_any_schedule : forall re_ok rm rn rr hcode ns p abs steps,
+  path_syntax p -> steps_of p = (abs, steps) -> xok p -> List.length steps < max_build_depth ->
+  exists q, compile re_ok (print_min p) ns = Ok q /\
+    forall (h1 h2 : schedule) t D has_ns c n,
+      hash_ok (hcode D) (all_nodes D) -> valid D c = true ->
+      exists l,
+        nth_error (run_obs rm rn rr hcode (mkExpr q []) (h1 ++ (t, OpSelect D has_ns c n) :: h2)) (List.length h1)
+          = Some (t, ObsNodes (Val (firstn n l))) /\
+        forall x, In x l <-> path_den D has_ns steps (if abs then root_node else c) x.
+Proof. exact C05_text_path_threads. Qed.
+Print Assumptions C05_text_path_under_any_schedule.
+
+Theorem C05_text_memory : forall re_ok text ns q (M : eval_model q),
+  compile re_ok text ns = Ok q ->
+  forall sched : list tid,
+    ~ race (trace (Conc.run (em_lockres q M) (em_progs q M) (em_st0 q M) sched)) /\
+    (forall t,
+       observed (Conc.run (em_lockres q M) (em_progs q M) (em_st0 q M) sched) t =
+       observed (Conc.run (em_lockres q M) (em_progs q M) (em_st0 q M) (alone t sched)) t) /\
+    (forall t,
+       finished (Conc.run (em_lockres q M) (em_progs q M) (em_st0 q M) sched) t ->
+       observed (Conc.run (em_lockres q M) (em_progs q M) (em_st0 q M) sched) t =
+       observed (Conc.run (em_lockres q M) (em_progs q M) (em_st0 q M) (solo (em_progs q M) t)) t) /\
+    (forall t l, em_shared q M l ->
+       store (Conc.run (em_lockres q M) (em_progs q M) (em_st0 q M) sched) l =
+       store (Conc.run (em_lockres q M) (em_progs q M) (em_st0 q M) (alone t sched)) l).
+Proof. exact C05_text_memory_model. Qed.
+Print Assumptions C05_text_memory.
